@@ -507,6 +507,45 @@ func realMain() int {
 			printUnit(ur)
 		}
 	}
+	// lock order over the whole run: an edge A -> B is an obligation that B
+	// never (transitively) leads back to A
+	if len(lockEdges) > 0 {
+		adj := map[string][]string{}
+		for _, e := range lockEdges {
+			adj[e.From] = append(adj[e.From], e.To)
+		}
+		reach := func(from, to string) bool {
+			seen := map[string]bool{}
+			stack := []string{from}
+			for len(stack) > 0 {
+				n := stack[len(stack)-1]
+				stack = stack[:len(stack)-1]
+				if n == to {
+					return true
+				}
+				if seen[n] {
+					continue
+				}
+				seen[n] = true
+				stack = append(stack, adj[n]...)
+			}
+			return false
+		}
+		ur := &UnitResult{Name: "lock-order", Kind: "sweep", Props: []string{*flagProp}, Cover: "skipped"}
+		for _, k := range sortedKeys(lockEdges) {
+			e := lockEdges[k]
+			ok := !reach(e.To, e.From)
+			st := "discharged"
+			if !ok {
+				st = "failed"
+			}
+			ur.Obligations = append(ur.Obligations, &OblResult{Name: "lockorder." + e.From + "->" + e.To, Kind: "lock", Instances: 1, Status: st, Solver: "syntactic", Pos: e.Pos, Note: "mutex order: " + e.To + " is taken while " + e.From + " is held (in " + e.Fn + "); the reverse order must not occur anywhere"})
+		}
+		res.Units = append(res.Units, ur)
+		if *flagVerbose {
+			printUnit(ur)
+		}
+	}
 	res.WallMs = time.Since(t0).Milliseconds()
 	writeJSON(res)
 	return 0
